@@ -17,7 +17,8 @@ for id in $IDS; do
   git -C $REPO checkout -q -- . ; git -C $REPO clean -fdq; git -C $REPO apply $ROOT/$D/$id/patch.diff || { echo "$id APPLY-FAILED"; continue; }
   hits=""; detail=""
   own=$(echo $id | cut -d- -f1)
-  for c in $CHECKS; do
+  RUN="$CHECKS"; [ -n "$OWN_ONLY" ] && RUN="$own $EXTRA_CHECKS"
+  for c in $RUN; do
     out=$(bin/check $c 2>&1); rc=$?
     if [ $rc -ne 0 ]; then
       n=$(echo "$out" | grep -c '^VIOLATION')
